@@ -32,7 +32,10 @@ package roothash
 
 //@ func rearmRoundTimeout
 //@   props C10
+//@   modifies kvState(), abciAPI.GTreeW
+//@   trustframe
 //@   ensures err == nil || fresh(err)
+//@   note writes only the round-timeout keys of the consensus state (frame assumed: the state accessors are outside the contracts)
 
 //@ func Application.failRound
 //@   props C10
@@ -41,6 +44,5 @@ package roothash
 //@ func Application.tryFinalizeRoundInsideTx
 //@   props C10
 //@   requires rtState != nil && rtState.CommitmentPool != nil && rtState.Committee != nil
-//@   assumes rtState.LivenessStatistics != nil
 //@   ensures-local result != nil && !defined(firstSchedulerIdx) ==> result != commitment.ErrBadSchedulerCommitment && result != commitment.ErrNoSchedulerCommitment && result != commitment.ErrInsufficientVotes && result != commitment.ErrStillWaiting
 //@   note whatever the executor nodes committed (no or a bad scheduler commitment, too few votes, still waiting), the attempt to finalize a round does not return that outcome as an error: EndBlock errors are fatal in the multiplexer, and these outcomes are produced by ordinary transactions of compute nodes
